@@ -8,6 +8,22 @@ d, info = gen.facts_dir('default')
 fx = facts.load(d)
 ids = sorted(k for k, r in fx.fns.items() if r.get('kind') != 'Closure')
 sigs = {k: fx.fns[k]['locals'][:fx.fns[k]['argc'] + 1] for k in ids}
+# callee sets (own closures included): used to recognise a baseline function that was merely renamed
+callees = {}
+for k in ids:
+    cs = set()
+    for rid in [k] + list(fx.closures_of(k)):
+        r = fx.fns.get(rid)
+        if r is None:
+            continue
+        for bb in r['bbs']:
+            t = bb['t']
+            if t['k'] == 'call' and not bb['c']:
+                n = t['f'].get('inst') or t['f'].get('def')
+                if n:
+                    cs.add(n)
+    if cs:
+        callees[k] = sorted(cs)
 with open(os.path.join(gen.VERIF, 'baseline_fns.json'), 'w') as f:
-    json.dump({'tree_hash': info['tree_hash'], 'repo_head': os.popen('git -C /repo rev-parse --short HEAD').read().strip(), 'functions': ids, 'signatures': sigs}, f)
+    json.dump({'tree_hash': info['tree_hash'], 'repo_head': os.popen('git -C /repo rev-parse --short HEAD').read().strip(), 'functions': ids, 'signatures': sigs, 'callees': callees}, f)
 print(len(ids), 'functions')
